@@ -22,7 +22,7 @@ def run(tier):
         _b, g, n, full = P._CFG[name]
         return Job("harness.pipeline", name, P.shards(name, prefix), budget, bounds=dict(values=g.describe(), calls=n, k="all integers >= 0 (symbolic)"),
                    rule="pipeline level: one path = (configuration, call history shapes, k class)", describe=P.describe)
-    js += [J("c06_quick", 300, 5)] if tier == "quick" else [J("c06_dicts", 2400, 5), J("c06_thorough", 2400, 5)]
+    js += [J("c06_quick", 300, 5), J("c06_nestedx", 200, 6)] if tier == "quick" else [J("c06_nested", 2400, 7), J("c06_dicts", 2400, 5), J("c06_thorough", 2400, 5)]
     return run_check(PID, tier, js, H.FUNCTIONS + P.FUNCTIONS, ASSUMPTIONS + [
         "pipeline level: the same symbolic k configures the tracer and stub generation; stored rows (JSON crossing a real in-memory SQLite) and the "
         "rendered stub are inspected: k == 0 => no TypedDict in any row or in the stub; k > 0 => every generated class has <= k fields counting "
